@@ -227,6 +227,16 @@ Section Json.
   Lemma json_reload_lossless : forall j : jnet A, json_reload false j = j.
   Proof. intros [n d]. unfold json_reload. simpl. rewrite orb_false_r. reflexivity. Qed.
 
+  (* the tree under test: _from_dict restores the shape, so the reload is the identity on every network and every
+     later operation is the plain one *)
+  Theorem json_roundtrip : forall j : jnet A, json_reload repo_json_lossy j = j.
+  Proof. exact json_reload_lossless. Qed.
+
+  Theorem json_roundtrip_ops : forall (n : net A) o,
+    jstep zero o (json_reload repo_json_lossy (mkJ n false)) =
+    (fst (step zero o n), mkJ (snd (step zero o n)) false).
+  Proof. intros n o. rewrite json_roundtrip. reflexivity. Qed.
+
   (* on a reachable network that still has a constraint, or never had one, the reload changes nothing — whatever
      the serialisation does with row-less matrices — and operations on the reloaded network are the plain ones *)
   Theorem json_roundtrip_identity : forall (ops : list (op A)) lossy,
